@@ -134,7 +134,9 @@ def r02_1(prog, rep, tier):
                                 acts.append("SKIP")
                             elif tgt == "%s->%s" % (this, xf):
                                 acts.append("ADVANCE")
-                    if isinstance(x, dict) and x.get("k") == "ref" and x["n"] == popp:
+                    # reaching the test of the pop flag (however it is spelt) means the candidate is delivered
+                    if isinstance(x, dict) and x.get("k") != "call" and any(n.get("k") == "ref" and n.get("n") == popp for n in walk(x)) \
+                            and not any(True for _ in calls(x)):
                         acts.append("DELIVER")
                     return None
                 w = AbsWalk(f, set(), effect=effect, call_eval=call_eval)
@@ -201,7 +203,8 @@ def r02_1(prog, rep, tier):
                 acts.append("ADVANCE")
             if c.get("fn") in ("echs_range_overlaps_p", "echs_range_precedes_p"):
                 acts.append("COMPARE")
-        if isinstance(x, dict) and x.get("k") == "ref" and x["n"] == popp:
+        if isinstance(x, dict) and x.get("k") != "call" and any(n.get("k") == "ref" and n.get("n") == popp for n in walk(x)) \
+                and not any(True for _ in calls(x)):
             acts.append("DELIVER")
     AbsWalk(f, set(), effect=effect0, call_eval=call_eval0).run(start_block=start, stop_at={start})
     if set(acts) == {"DELIVER"}:
